@@ -18,6 +18,9 @@
 #include "mt.h"
 #include "vk.h"
 
+#define MT_TAGMASK	(0xfffULL << 48)
+#define MT_TAG(idx)	(1ULL << (48 + ((idx) % 12)))
+
 const char *mt_schedule;
 int mt_active;
 int mt_log_idle;
@@ -300,7 +303,10 @@ static int new_thread(void *(*fn)(void *), void *arg, pthread_t *out)
 	th[idx].used = 1;
 	th[idx].start = fn;
 	th[idx].arg = arg;
-	th[idx].sigmask = th[mt_self()].sigmask;
+	/* inherited from the creator, except for the per-thread TAG bit (a signal number outside the range the scenarios
+	   use, blocked in this thread only): masks of different threads differ, so a mask restored from the wrong
+	   thread's saved copy is visible (harness rule in __wrap_fork) */
+	th[idx].sigmask = (th[mt_self()].sigmask & ~MT_TAGMASK) | MT_TAG(idx);
 	pthread_cond_init(&th[idx].cv, NULL);
 	if (__real_pthread_create(&th[idx].real, NULL, trampoline, &th[idx]) != 0) {
 		th[idx].used = 0;
@@ -556,9 +562,9 @@ static const char *mask_name(uint64_t b, char *buf, size_t len)
 {
 	if ((b & ALLSIGS) == ALLSIGS)
 		return "all";
-	if ((b & ALLSIGS) == 0)
+	if ((b & ALLSIGS & ~MT_TAGMASK) == 0)
 		return "none";
-	snprintf(buf, len, "%llx", (unsigned long long)(b & ALLSIGS));
+	snprintf(buf, len, "%llx", (unsigned long long)(b & ALLSIGS & ~MT_TAGMASK));
 	return buf;
 }
 
@@ -758,6 +764,7 @@ pid_t __wrap_getpid(void)
 pid_t __wrap_fork(void)
 {
 	int i, pid;
+	uint64_t mask0 = mt_active ? th[mt_self()].sigmask : 0;
 
 	if (!mt_active)
 		return -1;
@@ -777,6 +784,11 @@ pid_t __wrap_fork(void)
 		if (af_parent[i] != NULL)
 			af_parent[i]();
 	vk_trace("Fk %d", pid);
+	/* harness rule: fork() returns with the caller's signal mask unchanged (the atfork handlers of the library block
+	   signals around the fork and must restore THIS thread's mask) */
+	if (th[mt_self()].sigmask != mask0)
+		vk_trace("X fork: the calling thread's signal mask changed across fork() (%llx -> %llx)",
+			 (unsigned long long)mask0, (unsigned long long)th[mt_self()].sigmask);
 	if (mt_fork_hook != NULL)
 		mt_fork_hook(pid);	/* the scenario may let the child change state at once */
 	return pid;
